@@ -263,7 +263,9 @@ def kernel_sites_vcs() -> List[core.VC]:
         "last activity per stream": "last_node[stream] = end_node",
         "stream sync waits for the last activity of its stream, context sync for all": "gpu_nodes_to_sync = last_node.values() if name == context_sync else [last_node.get(row.stream)]",
         "sync edge ends at the waiting host call": "self._add_gpu_cpu_sync_edge(gpu_node, row.index_correlation)",
-        "activities processed in start-time order (sync records by their end)": "gpu_kernels.sort_values(by=\"sort_by\", axis=0, inplace=True)",
+        "activities processed in start-time order (sync records by their end), a sync record before an activity starting at that instant":
+            "gpu_kernels.sort_values(by=[\"sort_by\", \"is_activity\"], axis=0, inplace=True, kind=\"stable\")",
+        "tie-break column: 0 for sync records, 1 for activities": "gpu_kernels[\"is_activity\"] = (gpu_kernels.cat != sync_cat).astype(int)",
     }
     missing = [k for k, v in want.items() if v not in flat]
     if missing:
@@ -421,12 +423,30 @@ def check_graph(seed: int, evs, ta, g, success, inst, zero_w: bool, fails: List[
     return 1
 
 
+def _sync_tie_events(kernel_first_in_file: bool) -> List[Dict[str, Any]]:
+    """a stream synchronisation that returns at the very instant the next launch on that stream begins and its kernel starts
+    (back-to-back calls at microsecond resolution); the kernel record sits before / after the sync record in the file"""
+    from hv import synth
+
+    b = 1_000_000
+    evs = [synth.host_op("aten::first_op", b, 5), synth.profiler_step(1, b + 5, 95),
+           synth.host_op("aten::add", b + 10, 20), synth.launch(b + 12, 8, 1), synth.kernel("void gemm_kernel", b + 20, 20, 7, 1),
+           synth.launch(b + 45, 5, 2, name="cudaStreamSynchronize")]
+    sync_rec = {"ph": "X", "cat": "cuda_sync", "name": "Stream Sync", "pid": 0, "tid": 7, "ts": b + 45, "dur": 5, "args": {"correlation": 2, "stream": 7}}
+    k2 = synth.kernel("void elementwise_kernel", b + 50, 10, 7, 3)
+    evs += ([k2, sync_rec] if kernel_first_in_file else [sync_rec, k2])
+    evs += [synth.host_op("aten::linear", b + 50, 20), synth.launch(b + 50, 10, 3), synth.profiler_step(2, b + 100, 20), synth.host_op("aten::relu", b + 102, 10)]
+    return evs
+
+
 def _case(arg) -> Dict[str, Any]:
-    seed, zero_w = arg
+    seed, zero_w = arg[:2]
     from hv import cpgen, rt
 
     evs = cpgen.gen_cp_events(seed, n_steps=3, n_streams=1 + seed % 3, annotations=bool(seed % 2), n_threads=2 if seed % 3 == 0 else 1)
     inst = 0 if seed % 3 == 0 else ((0, 1) if seed % 3 == 1 else 1)
+    if len(arg) > 2:
+        evs, inst = _sync_tie_events(arg[2]), 0
     fails: List[Dict[str, Any]] = []
     inp = {"seed": seed, "instance_id": inst, "zero_weight_launch_edges": zero_w, "events": {0: evs}}
     n = 0
@@ -447,7 +467,9 @@ def _case(arg) -> Dict[str, Any]:
                     return {"n_checks": 0, "fails": [], "nontrivial": False, "sample": {"seed": seed, "skipped": "empty window"}}
                 blocking = {"cudaDeviceSynchronize", "cudaStreamSynchronize", "cudaEventQuery", "cudaEventSynchronize", "cudaMemcpy", "cudaMemcpyAsync"}
                 names_in = {stab0[int(nm)] for i, nm in zip(df0["index"], df0["name"]) if i in set(inside)}
-                dev_in = [i for i, ts, s, ic in zip(df0["index"], df0["ts"], df0["stream"], df0["index_correlation"]) if s > 0 and ic in set(inside)]
+                # device ACTIVITIES launched from inside the window (synchronisation records are not work and carry no weight)
+                dev_in = [i for i, ts, s, ic, c in zip(df0["index"], df0["ts"], df0["stream"], df0["index_correlation"], df0["cat"])
+                          if s > 0 and ic in set(inside) and stab0[int(c)] != "cuda_sync"]
                 if names_in <= blocking and not dev_in:
                     # recorded finding C08-D16: all-zero-weight window
                     try:
@@ -478,7 +500,8 @@ def bounded(ctx):
 
     _FINDINGS[:] = ctx.findings
     n = 48 if not ctx.thorough else 600
-    res = rt.pmap(_case, [(ctx.seed * 101 + i, bool(i % 4 == 3)) for i in range(n)], ctx.procs)
+    ties = [(ctx.seed * 101 + 9000 + i, bool(i % 2), bool(i // 2)) for i in range(4)]  # synchronisation returning exactly when the next activity of its stream starts
+    res = rt.pmap(_case, [(ctx.seed * 101 + i, bool(i % 4 == 3)) for i in range(n)] + ties, ctx.procs)
     return rt.summarise(res, f"{PROP}.bounded", f"{n} generated causally consistent traces (1-3 streams, nested operators, blocking memcpy launches, stream and context synchronisation with "
                         "cuda_sync records, user annotations) x instance selections (single step, range) x with/without zero-weight launch edges")
 
